@@ -1,14 +1,15 @@
 import DoitModel.Proofs.C08Dyn6
 import DoitModel.Proofs.C08Conf9
+import DoitModel.Proofs.C08Dyn8
 /-! # C08 (I10) with calc_dep, closure, part 1: every node a run creates — hence every task it reports — is in the
     denotational closure `Dyn.DenCl` of the selection -/
 namespace DoitModel.Run.Dyn
 
-/-- the calc_deps of `n` according to the denotation: static ones and what executed / up-to-date ones deliver -/
+/-- the calc_deps of `n` according to the denotation: static ones and what their members deliver
+    (`delivOf`: executed / up-to-date ones `calcRes`, ones that failed during their execution `calcResFail`) -/
 inductive CalcR (inp : RunInput) (n : Name) : Name → Prop
   | static {c : Name} : c ∈ inp.calcDep n → CalcR inp n c
-  | deliv {c x : Name} {d : Den} : CalcR inp n c → DenOf inp c d → d.rs.good = true → x ∈ (inp.calcRes c).calcs →
-      CalcR inp n x
+  | deliv {c x : Name} {d : Den} : CalcR inp n c → DenOf inp c d → x ∈ (delivOf inp c d).calcs → CalcR inp n x
 
 /-- tasks a complete run processes: the selection, closed under task_dep, under calc_dep (static and delivered),
     under the task_deps / file_dep owners delivered by executed / up-to-date calc_deps, and under the setup-tasks of
@@ -17,8 +18,8 @@ inductive DenCl (inp : RunInput) : Name → Prop
   | ofSel {t : Name} : t ∈ inp.sel → DenCl inp t
   | ofTask {t d : Name} : DenCl inp t → d ∈ inp.taskDep t → DenCl inp d
   | ofCalc {t c : Name} : DenCl inp t → CalcR inp t c → DenCl inp c
-  | ofDeliv {t c x : Name} {d : Den} : DenCl inp t → CalcR inp t c → DenOf inp c d → d.rs.good = true →
-      (x ∈ (inp.calcRes c).tasks ∨ x ∈ (inp.calcRes c).files) → DenCl inp x
+  | ofDeliv {t c x : Name} {d : Den} : DenCl inp t → CalcR inp t c → DenOf inp c d →
+      (x ∈ (delivOf inp c d).tasks ∨ x ∈ (delivOf inp c d).files) → DenCl inp x
   | ofSetup {t d : Name} : DenCl inp t → R1 inp t → d ∈ inp.setup t → DenCl inp d
 
 theorem CalcS.toR {inp : RunInput} {s : Sys} {n c : Name} (hD : InvE inp s) (h : CalcS inp s n c) : CalcR inp n c := by
@@ -26,14 +27,18 @@ theorem CalcS.toR {inp : RunInput} {s : Sys} {n c : Name} (hD : InvE inp s) (h :
   | static hc => exact CalcR.static hc
   | deliv _ hg hm ih =>
     obtain ⟨d, hd, hrs⟩ := hD.fin _ (RS.good_finished hg)
-    exact CalcR.deliv ih hd (by rw [hrs]; exact hg) hm
+    exact CalcR.deliv ih hd (by rw [delivOf_good (by rw [hrs]; exact hg)]; exact hm)
+  | delivF _ _ hsf hm ih =>
+    obtain ⟨d, hd, hs⟩ := hsf
+    exact CalcR.deliv ih hd (by rw [delivOf_startedFail hs]; exact hm)
 
 theorem TaskS.toCl {inp : RunInput} {s : Sys} {n x : Name} (hD : InvE inp s) (hcl : DenCl inp n)
     (h : TaskS inp s n x) : DenCl inp x := by
-  rcases h with a | ⟨c, hc, hg, hm⟩
+  rcases h with a | ⟨c, hc, hg, hm⟩ | ⟨c, hc, _, ⟨d, hd, hs⟩, hm⟩
   · exact DenCl.ofTask hcl a
   · obtain ⟨d, hd, hrs⟩ := hD.fin _ (RS.good_finished hg)
-    exact DenCl.ofDeliv hcl (hc.toR hD) hd (by rw [hrs]; exact hg) hm
+    exact DenCl.ofDeliv hcl (hc.toR hD) hd (by rw [delivOf_good (by rw [hrs]; exact hg)]; exact hm)
+  · exact DenCl.ofDeliv hcl (hc.toR hD) hd (by rw [delivOf_startedFail hs]; exact hm)
 
 /-- what the `for` loop a generator is in will still visit -/
 def pcC (inp : RunInput) (n : Name) : PC → Prop
@@ -208,7 +213,7 @@ theorem dtick_invC {inp : RunInput} {s s' : Sys} {perm : List Name} (hN : InvN i
 theorem init_invC (inp : RunInput) : InvC inp (init inp) :=
   ⟨fun n nd hn => by simp [init] at hn, fun t ht => DenCl.ofSel ht⟩
 
-theorem reach_invC {inp : RunInput} [NoFailDeliver inp] {s : Sys} (h : Reach inp s) : InvC inp s := by
+theorem reach_invC {inp : RunInput} {s : Sys} (h : Reach inp s) : InvC inp s := by
   induction h with
   | init => exact init_invC inp
   | @next s0 s1 c hr hs ih =>
@@ -221,7 +226,7 @@ theorem reach_invC {inp : RunInput} [NoFailDeliver inp] {s : Sys} (h : Reach inp
     | take w => cases hs
     | done w => cases hs
 
-theorem preach_invC {inp : RunInput} [NoFailDeliver inp] {s : Sys} (h : PReach inp s) : InvC inp s := by
+theorem preach_invC {inp : RunInput} {s : Sys} (h : PReach inp s) : InvC inp s := by
   induction h with
   | init => exact init_invC inp
   | @next s0 s1 c hr hs ih =>
@@ -235,7 +240,7 @@ theorem preach_invC {inp : RunInput} [NoFailDeliver inp] {s : Sys} (h : PReach i
     | done w => exact ih.back (doneStep_back hs)
 
 /-- nothing outside the denotational closure is ever created, selected, executed or reported -/
-theorem reported_in_closure {inp : RunInput} [NoFailDeliver inp] {s : Sys} (hr : Reach inp s ∨ PReach inp s) (t : Name)
+theorem reported_in_closure {inp : RunInput} {s : Sys} (hr : Reach inp s ∨ PReach inp s) (t : Name)
     (h : Reported s t) : DenCl inp t := by
   have hC : InvC inp s := by rcases hr with a | a; exact reach_invC a; exact preach_invC a
   have h3 : Inv3 inp s := by rcases hr with a | a; exact reach_inv3 a; exact (preach_inv a).2
@@ -246,7 +251,7 @@ theorem reported_in_closure {inp : RunInput} [NoFailDeliver inp] {s : Sys} (hr :
     have := h3.t t (by simp [stOf, hn, RS.finished])
     omega
 
-theorem created_in_closure {inp : RunInput} [NoFailDeliver inp] {s : Sys} (hr : Reach inp s ∨ PReach inp s) (t : Name)
+theorem created_in_closure {inp : RunInput} {s : Sys} (hr : Reach inp s ∨ PReach inp s) (t : Name)
     (nd : Node) (h : s.nodes t = some nd) : DenCl inp t := by
   have hC : InvC inp s := by rcases hr with a | a; exact reach_invC a; exact preach_invC a
   exact (hC.nodes t nd h).1
